@@ -60,6 +60,7 @@ OPTIONAL_FEATURES = frozenset({
     "titles",             # title annotations on inline subschemas
     "idioms",             # apply 0-4 idiom mutations to the printed document
     "root_enum",          # the root schema may be an enum rather than a struct
+    "typed_addl",         # structs with `additionalProperties: <schema>` next to their properties (a flattened map member)
     "objunion",           # oneOf / anyOf whose branches are ALL objects (told apart by required / closed members; non-exclusive anyOf)
 })
 ALL_FEATURES = DEFAULT_FEATURES | OPTIONAL_FEATURES
@@ -79,8 +80,8 @@ FEATURE_SETS = {
     "c09": frozenset({"struct", "closed", "strenum", "vec", "map", "option", "int_formats", "bool",
                       "refs", "allof", "allof_closed", "allof_unsat", "allof_refine"}),
     "hostile": DEFAULT_FEATURES | {"hostile_names"},
-    "maps": DEFAULT_FEATURES | {"map_keys", "any", "defaults"},
-    "unions": DEFAULT_FEATURES | {"objunion", "allof"},
+    "maps": DEFAULT_FEATURES | {"map_keys", "any", "defaults", "typed_addl"},
+    "unions": DEFAULT_FEATURES | {"objunion", "allof", "typed_addl"},
     "all": ALL_FEATURES - {"hostile_names", "invalid_defaults", "allof_unsat", "not_untyped"},
 }
 
@@ -698,8 +699,10 @@ class _Universe:
 
     def t_struct(self, depth, small=False):
         n = self.rng.randint(1, 3) if small else self.rng.randint(1, 2 + min(self.size, 4))
-        return {"k": "struct", "props": self.props(depth, n),
-                "closed": self.has("closed") and self.coin(0.3)}
+        st = {"k": "struct", "props": self.props(depth, n), "closed": self.has("closed") and self.coin(0.3)}
+        if self.has("typed_addl") and not st["closed"] and self.coin(0.3):
+            st["addl"] = self.t_scalar() if self.coin(0.7) else {"k": "vec", "t": self.t_scalar()}
+        return st
 
     def _taggings(self):
         return [t for t in ("external", "internal", "adjacent", "untagged") if self.has("enum_" + t)]
@@ -864,6 +867,7 @@ class _Universe:
             if src["name"] not in {p["name"] for p in tgt["props"]}:
                 q = copy.deepcopy(src); q["state"] = r.choice(["required", "optional"])
                 if q["state"] == "optional" and src["state"] == "default": q["state"] = "optional"
+                if self.coin(0.5): q["desc"] = "the same member, described on this side only"     # differs in an annotation only
                 tgt["props"].append(q); mode = "overlap"
         if self.has("allof_refine") and self.coin(0.4):
             # the same property on two sides with different, compatible constraints: the merge has to intersect them
@@ -1061,13 +1065,17 @@ class _Printer:
             m = {"type": "object", "additionalProperties": v}
             if t.get("keys"): m["propertyNames"] = dict({"type": "string"}, **t["keys"])
             return m
-        if k == "struct": return self.p_struct(t["props"], t["closed"])
+        if k == "struct":
+            ps = self.p_struct(t["props"], t["closed"])
+            if t.get("addl") is not None: ps["additionalProperties"] = self.p(t["addl"])
+            return ps
         if k == "allof": return {"allOf": [self.p(x) for x in t["parts"]]}
         if k == "enum": return self.p_enum(t)
         raise AssertionError(k)
 
     def p_prop(self, pr):
         s = self.p(pr["t"])
+        if pr.get("desc") and isinstance(s, dict): s = dict(s, description=pr["desc"])
         if pr["state"] == "default":
             if isinstance(s, dict) and "$ref" in s: s = {"allOf": [s]}
             if s is True: s = {}
